@@ -104,10 +104,14 @@ def run_one(ck, prog):
             for f in panics.dominating_facts(mm, bb):
                 if f[0] == "cmp" and f[1] in ("Ge", "Lt", "Gt", "Le"):
                     a, b = strip_casts(f[2]), strip_casts(f[3])
+                    opn = f[1]
+                    if isinstance(a, tuple) and a[0] == "param" and a[1] == 3:        # written as `n <= delta` / `n > delta`
+                        a, b = b, a
+                        opn = {"Ge": "Le", "Le": "Ge", "Gt": "Lt", "Lt": "Gt"}[opn]
                     is_delta = isinstance(a, tuple) and a[0] == "call" and (a[1] or "").endswith("usize>::wrapping_sub") and mentions(a[2][0], mm.prov, lambda z: z[0] == "param" and z[1] == 1) and mentions(a[2][1], mm.prov, lambda z: z[0] == "param" and z[1] == 2)
                     is_n = isinstance(b, tuple) and b[0] == "param" and b[1] == 3
                     if is_delta and is_n:
-                        out.append(f[1])
+                        out.append(opn)
             return out
         ck.ob("C08.3", "memmove|forward-iff-delta>=n", delta_facts(fwd[0]) == ["Ge"], fn=mm.path, detail=f"the forward copy must be taken exactly when dest.wrapping_sub(src) >= n; dominating comparisons {delta_facts(fwd[0])}")
         ck.ob("C08.3", "memmove|backward-iff-delta<n", delta_facts(bwd[0]) == ["Lt"], fn=mm.path, detail=f"the backward copy must be taken exactly when dest.wrapping_sub(src) < n; dominating comparisons {delta_facts(bwd[0])}")
@@ -148,7 +152,13 @@ def run_one(ck, prog):
     for nm in ("memcpy", "memmove", "memset"):
         c = prog.ctx(fns[nm])
         rets = list(c.ret_expr().values())
-        ck.ob("C08.3", f"{nm}|returns-first-argument", len(rets) == 1 and canon(rets[0]) == "p1", fn=c.path, detail=f"{nm} must return its destination pointer, returns {show(rets[0]) if rets else None}")
+        def all_p1(e, depth=0):
+            e2 = strip_casts(e)
+            if isinstance(e2, tuple) and e2 and e2[0] == "var" and depth < 6:
+                ds = c.prov.expand(e2)
+                return bool(ds) and all(all_p1(d, depth + 1) for d in ds)
+            return canon(e) == "p1"
+        ck.ob("C08.3", f"{nm}|returns-first-argument", len(rets) >= 1 and all(all_p1(r) for r in rets), fn=c.path, detail=f"{nm} must return its destination pointer, returns {[show(r) for r in rets]}")
     ms = prog.ctx(fns["memset"])
     for bb, t in ms.cfg.calls(lambda t: (t.get("callee") or "").endswith("set_bytes")):
         a = ms.args(bb)
